@@ -131,6 +131,13 @@ func (h *hmac) start() {
 	if h.started {
 		return
 	}
+	if h.keyHandle == nil || h.keyName == nil {
+		// Key generation failed (see initErr, which Err reports)
+		if h.err == nil {
+			h.err = fmt.Errorf("tpm: hmac key is not available")
+		}
+		return
+	}
 
 	// Start HMAC sequence
 	sequenceAuth := make([]byte, 16)
